@@ -38,7 +38,7 @@ func (c17) Info(t core.Tier) core.Info {
 	}
 }
 
-func (c17) NumCases(t core.Tier) int { return tierN(t, 3000, 200000) }
+func (c17) NumCases(t core.Tier) int { return tierN(t, 30000, 800000) }
 
 func (c17) RunCase(c *core.Ctx) {
 	switch c.Case % 3 {
